@@ -223,8 +223,10 @@ class Ctx:
             "coverage": cov, "assumptions": assumptions,
             "wall_s": round(time.time() - self.t0, 2), "violations": len(unknown),
         }
-        os.makedirs(os.path.join(VERIF, "evidence"), exist_ok=True)
-        with open(os.path.join(VERIF, "evidence", self.prop + ".json"), "w") as f:
+        # development runs against a scratch clone (VERIF_REPO) must not overwrite the evidence of /repo
+        evdir = os.path.join(VERIF, "evidence") if REPO == "/repo" else os.path.join(tlc.scratch_root(), "evidence-dev")
+        os.makedirs(evdir, exist_ok=True)
+        with open(os.path.join(evdir, self.prop + ".json"), "w") as f:
             json.dump(ev, f, indent=1, default=str)
         return 1 if unknown else 0
 
